@@ -27,6 +27,8 @@ THEOREMS = [_P + n for n in [
     "stdR_local", "stdR_stable",
     # arrival independence: machine = strict batch reader for every segmentation; the first statement is refuted
     "arrival_batch", "arrival_independent_partial", "arrival_independent_refuted", "arrival_schedule",
+    # no stalled read: a read left pending by the event handler / the read call is not satisfiable from the WHOLE buffer
+    "no_stall_on_event", "no_stall_on_call", "pending_until_not_ready",
 ]]
 TRUSTED = [
     "core/faketransport.FakeStream + core/vloop (scripted transport, virtual loop): the model's transport part mirrors them",
@@ -43,7 +45,9 @@ ASSUMPTIONS = [
 ]
 RULE = ("op sequences (<= ~24 ops, <= 12 reads) over a byte stream (<= 4 KiB, alphabet rich in delimiters) delivered in "
         "exact segmentations incl. 1-byte and read_chunk_size +-1 boundaries, small max_buffer_size, with a close cause at a "
-        "random point; non-trivial = >= 2 reads complete with data and at least one read was pending across an arrival")
+        "random point; plus delimiter-boundary streams (records of near-miss filler ++ delimiter, delimiters of 1..6 bytes, "
+        "first arrivals of 0..len(delimiter)+1 bytes, read issued before / after the first arrival / on a left-over, "
+        "read_chunk_size 1..len+1: a complete 648-case grid and random members); non-trivial = >= 2 reads complete with data and at least one read was pending across an arrival")
 EXHAUSTIVE = {"quick": False, "thorough": False}
 CLAUSES = {
     "each read returns data matching its contract":
@@ -52,7 +56,9 @@ CLAUSES = {
         "(Spec.contractOk on the outcome _finish_read builds, every request kind) + read_contracts_step + read_contracts_run "
         "(every result of every run belongs to the request registered under its future id and meets Spec.contractOk; "
         "ids unique) + issued_of_ret (the id is the future the call returned); hypothesis on the regex engine: RLocal "
-        "(stdR_local)",
+        "(stdR_local); a read is handed over as soon as the buffered bytes satisfy it (oracle clause `stalled`, Spec.ready): "
+        "no_stall_on_event + no_stall_on_call (a read left pending has _find_read_pos = not-found on the whole buffer) + "
+        "pending_until_not_ready (pending read_until => delimiter nowhere in the buffer)",
     "concatenation of all results is a prefix of the stream, nothing lost/duplicated/reordered":
         "read_conservation (step), read_conservation_run / read_conservation_init (all op sequences), results_prefix_of_stream",
     "any pattern of short reads": "the conservation and contract theorems quantify over every arrival pattern (feeds are ops); "
@@ -464,14 +470,31 @@ def fed_stream(case):
     return b"".join(bytes.fromhex(o[1]) for o in case["ops"] if o[0] == "feed")
 
 
+def stall_candidates(case, impl):
+    """[(op index, request, buffered bytes)]: reads still pending after an op on an OPEN stream (whole buffer known)"""
+    req = read_requests(case, impl)
+    out, seen = [], set()
+    for i, o in enumerate(impl["outs"]):
+        closed, _, buf, _, _, pend = o["view"]
+        if closed or not isinstance(buf, str):
+            continue
+        for fid in pend:
+            q = req.get(fid)
+            if q and q[0] in ("rb", "ri", "ru", "rr") and (fid, buf) not in seen:
+                seen.add((fid, buf))
+                out.append((i, q, bytes.fromhex(buf)))
+    return out
+
+
 def spec_requests(case, impl):
     if case.get("kind") == "regex" or "outs" not in impl:
         return []
+    lines = [line("C11", "ready", [[wire_op(q), b] for _, q, b in stall_candidates(case, impl)])]
     comp = completed_reads(case, impl)
     if any(_result_bytes(oc) is None for _, _, _, oc in comp):
-        return []
+        return lines
     pairs = [[wire_op(q), _wire_outcome(oc)] for _, _, q, oc in comp]
-    return [line("C11", "spec", pairs, fed_stream(case), [_result_bytes(oc) for _, _, _, oc in comp])]
+    return lines + [line("C11", "spec", pairs, fed_stream(case), [_result_bytes(oc) for _, _, _, oc in comp])]
 
 
 def spec_violation(case, impl, replies):
@@ -486,8 +509,8 @@ def spec_violation(case, impl, replies):
         if isinstance(r, list) and r[0] in ("raised", "drain-raised") and str(r[1]).startswith("Uncaught") or \
                 isinstance(r, list) and r[0] == "drain-raised":
             return "op %d %s: unexpected exception %s" % (i, case["ops"][i][0], r[1])
-    st, vals = parse_reply(replies[0])
-    assert st == "ok", replies[0]
+    st, vals = parse_reply(replies[1])
+    assert st == "ok", replies[1]
     v = norm(vals[0])
     if isinstance(v, list) and v[0] == "contract":
         i, fid, q, oc = comp[v[1]]
@@ -510,6 +533,14 @@ def spec_violation(case, impl, replies):
             q = req.get(fid)
             if q and q[0] in ("ru", "rr") and q[2] is not None and not closed and buflen(buf) > q[2]:
                 return "op %d: %s pending with %d > max_bytes=%d buffered and the stream still open" % (i, q[0], buflen(buf), q[2])
+    # a read does not stay pending on an open stream once the bytes that satisfy it are buffered (Spec.ready)
+    st, vals = parse_reply(replies[0])
+    assert st == "ok", replies[0]
+    v = norm(vals[0])
+    if isinstance(v, list) and v[0] == "stalled":
+        i, q, b = stall_candidates(case, impl)[v[1]]
+        return "op %d: %s %r stalled: still pending on the open stream although the buffered bytes %s satisfy it" % (
+            i, q[0], q[1:], b.hex())
     return None
 
 
@@ -626,8 +657,116 @@ def gen_regex(rng, n):
     return {"kind": "regex", "items": items}
 
 
+# ---- delimiter searches that straddle arrivals (added after the missed seeded change C11-1) ---------------------
+# A delimiter / regex read is re-evaluated on every arrival; what the search may assume about the part of the buffer it
+# has already looked at depends on (len(delimiter), bytes buffered when the previous search ran, size of the next
+# arrival, read_chunk_size: with a small chunk `_read_to_buffer_loop` searches at sizes 1, 2, 4, 8 … of ONE arrival).
+# The random streams above almost never put a multi-byte delimiter right behind a 1–2 byte first arrival, so this
+# family builds streams *around* a delimiter: records `filler ++ d` whose filler is made of near-misses (proper
+# prefixes of d), and arrival patterns whose first sizes are 0 … len(d)+1.
+BOUNDARY_DELIMS = [b"aab", b"\r\n\r\n", b"abab\r", b"ab", b"x", b"aaa", b"\r\n\r", b"abab", b"\r\n", b"ab\r\n01"]
+GRID_DELIMS = [b"aab", b"\r\n\r\n", b"abab\r"]      # 3, 4, 5 bytes (self-overlapping prefixes)
+
+
+def _near_miss(d, n):
+    """n bytes of filler built from d's longest proper prefix and a byte that is not in d (never contains d)"""
+    unit = d[:-1] + b"0"
+    return (unit * (n // len(unit) + 1))[:n]
+
+
+def _feeds(data, sizes):
+    """cut `data` into arrivals of the given sizes (None / exhausted = the rest); empty arrivals are dropped"""
+    ops, i = [], 0
+    for n in sizes:
+        if i >= len(data):
+            break
+        n = len(data) - i if n is None else n
+        if n > 0:
+            ops.append(["feed", data[i:i + n].hex()])
+        i += n
+    if i < len(data):
+        ops.append(["feed", data[i:].hex()])
+    return ops
+
+
+def boundary_case(d, pre, first, second, chunk, mode, mx=None):
+    """stream = near-miss[:pre] ++ d ++ "0" ++ d ++ near-miss[:2] ++ d ++ "b"; the first arrival has `first` bytes, the
+    second `second` (None = everything else), then the rest.  mode: `pending` = read_until issued before anything
+    arrives; `inline` = issued after the first arrival (the first search runs inside the call); `leftover` = the first
+    arrival comes with two more bytes in front that a read_bytes(2) consumes, so the search starts on a left-over."""
+    stream = _near_miss(d, pre) + d + b"0" + d + _near_miss(d, 2) + d + b"b"
+    ru = ["ru", d.hex(), mx]
+    if mode == "pending":
+        ops = [ru] + _feeds(stream, [first, second])
+    elif mode == "inline":
+        f = _feeds(stream, [first, second])
+        ops = f[:1] + [ru] + f[1:]
+    else:
+        f = _feeds(b"01" + stream, [2 + first, second])
+        ops = f[:1] + [["rb", 2, False], ru] + f[1:]
+    ops += [list(ru), list(ru), ["rb", 64, True]]
+    return {"cfg": [chunk, None], "ops": ops, "fam": "boundary"}
+
+
+def boundary_grid():
+    """complete small grid: 3 delimiters x filler 0/1/len(d) x first arrival 1..len(d) x second arrival 1 / len(d) / rest
+    x read_chunk_size 1 / default x 3 issue modes"""
+    for d in GRID_DELIMS:
+        for pre in (0, 1, len(d)):
+            for first in range(1, len(d) + 1):
+                for second in (1, len(d), None):
+                    for chunk in (1, None):
+                        for mode in ("pending", "inline", "leftover"):
+                            yield boundary_case(d, pre, first, second, chunk, mode)
+
+
+def gen_boundary(rng):
+    """random member of the neighbourhood: any delimiter (incl. random ones), records with random near-miss fillers,
+    first arrivals 0..len(d)+1 bytes, small / boundary chunk sizes, max_bytes at the record length +-1, reads re-issued
+    between the arrivals, optionally a close cause at the end"""
+    if rng.random() < 0.8:
+        d = rng.choice(BOUNDARY_DELIMS)
+    else:
+        d = bytes(rng.choice(b"ab\r\n") for _ in range(rng.randint(1, 6)))
+    dl = len(d)
+    if rng.random() < 0.5:
+        c = boundary_case(d, rng.randint(0, dl + 2), rng.randint(0, dl + 1), rng.choice([1, 2, dl - 1, dl, dl + 2, None]),
+                          rng.choice([1, 2, 3, dl, None, None]), rng.choice(["pending", "inline", "leftover"]),
+                          rng.choice([None, None, dl, 2 * dl, 2 * dl + 1, 2 * dl + 3]))
+        return c
+    pieces = [d[:k] for k in range(1, dl)] + [bytes([b]) for b in set(d)] + [b"0", b""]
+    recs = []
+    for _ in range(rng.randint(1, 4)):
+        recs.append(b"".join(rng.choice(pieces) for _ in range(rng.randint(0, 3))) + d)
+    stream = b"".join(recs) + rng.choice([b"", b"b", d[:-1], d[:1]])
+    sizes = [rng.randint(0, dl + 1)] + [rng.choice([1, 1, 2, dl - 1, dl, dl + 1, 8, None]) for _ in range(rng.randint(1, 6))]
+    feeds = _feeds(stream, sizes)
+    mx = rng.choice([None, None, None, len(recs[0]) - 1, len(recs[0]), len(recs[0]) + 1, dl])
+    rd = lambda: (["ru", d.hex(), mx] if rng.random() < 0.8 else
+                  rng.choice([["rb", rng.randint(1, dl), rng.random() < 0.5], ["ri", rng.randint(1, dl), rng.random() < 0.5],
+                              ["rr", rng.randrange(len(REGEXES)), None]]))
+    ops = []
+    if rng.random() < 0.6:
+        ops.append(rd())
+    for f in feeds:
+        ops.append(f)
+        if rng.random() < 0.6:
+            ops.append(rd())
+    ops += [rd(), rd()]
+    if rng.random() < 0.3:
+        ops.insert(rng.randrange(len(ops) + 1), _cause(rng)[0])
+    if rng.random() < 0.2:
+        ops.insert(0, ["setcb"])
+    return {"cfg": [rng.choice([1, 2, 3, dl - 1 or 1, dl, dl + 1, None, None]), rng.choice([None, None, None, 2 * dl, 16])],
+            "ops": ops, "fam": "boundary"}
+
+
 def gen_cases(rng, tier):
     n = {"quick": 3000, "thorough": 80000, "search": 3000}[tier]
+    if tier != "search":
+        yield from boundary_grid()
+    for i in range({"quick": 350, "thorough": 12000, "search": 600}[tier]):
+        yield gen_boundary(rng)
     for i in range(n):
         k = rng.random()
         if k < 0.03:
@@ -653,7 +792,7 @@ def nontrivial(case, impl):
 def stats(case, impl):
     if case.get("kind") == "regex":
         return ["kind:regex"]
-    out = ["kind:ops", "chunk:%s" % case["cfg"][0], "maxbuf:%s" % case["cfg"][1]]
+    out = ["kind:" + case.get("fam", "ops"), "chunk:%s" % case["cfg"][0], "maxbuf:%s" % case["cfg"][1]]
     for op, o in zip(case["ops"], impl["outs"]):
         out.append("op:" + op[0])
         r = o["ret"]
@@ -682,6 +821,9 @@ def signature(case, impl, why):
         return "conservation/lost"
     if "prefix" in why:
         return "conservation/prefix"
+    if "stalled" in why:
+        m = re.search(r"op \d+: (\w+)", why)
+        return "read/%s/stalled" % (m.group(1) if m else "?")
     if "max_bytes" in why:
         return "max_bytes/not-closed"
     return "other/" + re.sub(r"[^a-zA-Z]+", "-", why)[:40]
